@@ -12,9 +12,10 @@ from bctmc import oracles as orc
 from bctmc import named
 from bctmc.runner import guarded
 from bctmc.tally import Tally
+from bctmc import dtypes
 
 PROPERTY = 'C12'
-RULE = ('Floyd: the structured 7-10 node family of bctmc/named.py (binary, lengths {1,2},{1,2,3}, near-tie) and all 3-node digraphs / 4-node graphs over lengths {1,2,3}, all binary 4-node digraphs, dyadic weights '
+RULE = ('element types: every routine also on int64 / int32 / uint8 / bool copies of all 3-node digraphs and 4-node graphs over {0,1,2} (same values as for float64; integers must not raise, a boolean matrix may be rejected with TypeError); Floyd: the structured 7-10 node family of bctmc/named.py (binary, lengths {1,2},{1,2,3}, near-tie) and all 3-node digraphs / 4-node graphs over lengths {1,2,3}, all binary 4-node digraphs, dyadic weights '
         '{1,1/2,1/4} with inv and log, the exact near-tie alphabets {1,2,2+2^-20} and {1,2^20,2^20+1}, and the float near-tie alphabets {0.1,0.2,0.3} / {0.2,0.4,0.6} (0.1+0.2 != 0.3 in '
         'binary floating point), lengths {1,2} on all 59 049 5-node graphs, every ordered (s,t) (thorough: lengths {1,2} on all 4-node digraphs); '
         'navigation: binary L on 4 nodes x all symmetric D over {1,2,3}, L over {0,1,2} x D over {1,2}, max_hops in '
@@ -57,6 +58,24 @@ NAV = {
 MAX_HOPS = (None, 1, 2, 3)
 
 
+def _all_paths(A):
+    SPL, hops, Pmat = bct.distance_wei_floyd(A)
+    n = len(A)
+    return (SPL, hops) + tuple(np.asarray(bct.retrieve_shortest_path(s, t_, hops, Pmat), dtype=float).ravel()
+                               for s in range(n) for t_ in range(n) if s != t_)
+
+
+def _nav(A):
+    n = len(A)
+    D = np.abs(np.subtract.outer(np.arange(n), np.arange(n))) + 1
+    sr, PLb, PLw, PLd, paths = bct.navigation_wu(A, D.astype(A.dtype) if A.dtype.kind in 'iu' else D.astype(float))
+    return (sr, PLb, PLw, PLd) + tuple(np.asarray(paths[k], dtype=float) for k in sorted(paths))
+
+
+ETYPE_FUNCS = [('distance_wei_floyd+retrieve_shortest_path', _all_paths, None),
+               ('navigation_wu', _nav, lambda A, d: not d)]
+
+
 def plan(ctx):
     units = []
     for name, (directed, n, alpha, tr, tier) in FLOYD.items():
@@ -75,6 +94,7 @@ def plan(ctx):
         tot = ss.und_count(n, la)
         for (a, b) in ss.ranges(tot, tot):
             units.append(('nav', name, a, b))
+    units += dtypes.units([(True, 3, (0, 1, 2)), (False, 4, (0, 1, 2))])
     return units
 
 
@@ -196,6 +216,8 @@ def check_nav(t, L, Dm, mh, case):
 
 
 def work(unit):
+    if unit[0] == 'etype':
+        return dtypes.work_unit(PROPERTY, ETYPE_FUNCS, unit)
     kind, name, a, b = unit
     t = Tally(PROPERTY)
     if kind == 'named':
@@ -234,6 +256,8 @@ def work(unit):
 
 
 def replay(rec):
+    if rec['case'].get('family') == 'element_types':
+        return dtypes.replay(PROPERTY, ETYPE_FUNCS, rec['case'])
     t = Tally(PROPERTY)
     c = rec['case']
     if 'L' in c:
